@@ -629,6 +629,110 @@ Arguments wf_block_grid2 {n1 n2 m1 m2 A B C D}.
 Arguments mx_of_block_grid2 {n1 n2 m1 m2 A B C D}.
 
 (* ------------------------------------------------------------------ *)
+(* General grids: Kr x Kc blocks of size n x m                         *)
+
+Lemma nth_flatten_unif (T : Type) (x0 : T) n (ss : seq (seq T)) b i :
+  all (fun s => size s == n) ss -> (i < n)%N ->
+  nth x0 (flatten ss) (b * n + i) = nth x0 (nth [::] ss b) i.
+Proof.
+move=> H iN; elim: ss b H => [|s ss IH] [|b] //=; rewrite ?nth_nil //.
+  by case/andP=> /eqP sn _; rewrite mul0n add0n nth_cat sn iN.
+case/andP=> /eqP sn H; rewrite nth_cat sn mulSn -addnA ltnNge leq_addr /=.
+by rewrite addKn; apply: IH.
+Qed.
+
+Lemma size_flatten_unif (T : Type) n (ss : seq (seq T)) :
+  all (fun s => size s == n) ss -> size (flatten ss) = (size ss * n)%N.
+Proof.
+elim: ss => [|s ss IH] //= /andP [/eqP sn /IH H].
+by rewrite size_cat sn H mulSn.
+Qed.
+
+Definition grid_rows (brow : seq (seq (seq R))) : seq (seq R) :=
+  match brow with
+  | [::] => [::]
+  | b0 :: _ =>
+    [seq flatten [seq nth [::] b i | b <- brow] | i <- iota 0 (size b0)]
+  end.
+
+Lemma block_gridE (G : seq (seq (seq (seq R)))) :
+  block_grid G = flatten [seq grid_rows brow | brow <- G].
+Proof.
+rewrite /block_grid L_flat_map; congr (flatten _); apply: eq_map => brow.
+case: brow => [|b0 brow] //; rewrite L_map L_seq L_length.
+apply: eq_map => i; rewrite L_flat_map; congr (flatten _).
+by apply: eq_map => b; rewrite L_nth.
+Qed.
+
+Section Grid.
+Variables (Kr Kc n m : nat) (G : seq (seq (seq (seq R)))).
+Hypothesis Kc0 : (0 < Kc)%N.
+Hypothesis sG : size G = Kr.
+Hypothesis sGrow : forall bi, (bi < Kr)%N -> size (nth [::] G bi) = Kc.
+Hypothesis Gwf : forall bi bj, (bi < Kr)%N -> (bj < Kc)%N ->
+  wf n m (nth [::] (nth [::] G bi) bj).
+
+Lemma grid_rows_row bi i : (bi < Kr)%N -> (i < n)%N ->
+  nth [::] (grid_rows (nth [::] G bi)) i
+  = flatten [seq nth [::] b i | b <- nth [::] G bi].
+Proof.
+move=> biK iN; have := sGrow biK; have := Gwf biK Kc0.
+case: (nth [::] G bi) => [|b0 brow] /=; first by move=> _ s0; move: Kc0; rewrite -s0.
+move=> b0wf _; rewrite (wf_size b0wf) (nth_map 0%N) ?size_iota //.
+by rewrite nth_iota.
+Qed.
+
+Lemma size_grid_rows bi : (bi < Kr)%N -> size (grid_rows (nth [::] G bi)) = n.
+Proof.
+move=> biK; have := sGrow biK; have := Gwf biK Kc0.
+case: (nth [::] G bi) => [|b0 brow] /=; first by move=> _ s0; move: Kc0; rewrite -s0.
+by move=> b0wf _; rewrite size_map size_iota (wf_size b0wf).
+Qed.
+
+Lemma grid_pieces bi i : (bi < Kr)%N -> (i < n)%N ->
+  all (fun s => size s == m) [seq nth [::] b i | b <- nth [::] G bi].
+Proof.
+move=> biK iN; apply/(all_nthP [::]) => bj; rewrite size_map (sGrow biK) => bjK.
+by rewrite (nth_map [::]) ?(sGrow biK) // (wf_row (Gwf biK bjK)).
+Qed.
+
+Lemma grid_all_rows : all (fun s => size s == n) [seq grid_rows brow | brow <- G].
+Proof.
+apply/(all_nthP [::]) => bi; rewrite size_map sG => biK.
+by rewrite (nth_map [::]) ?sG // size_grid_rows.
+Qed.
+
+Lemma nth_block_grid bi i : (bi < Kr)%N -> (i < n)%N ->
+  nth [::] (block_grid G) (bi * n + i)
+  = flatten [seq nth [::] b i | b <- nth [::] G bi].
+Proof.
+move=> biK iN; rewrite block_gridE (nth_flatten_unif _ _ grid_all_rows) //.
+by rewrite (nth_map [::]) ?sG // grid_rows_row.
+Qed.
+
+Theorem ent_block_grid bi bj i j :
+  (bi < Kr)%N -> (bj < Kc)%N -> (i < n)%N -> (j < m)%N ->
+  ent (block_grid G) (bi * n + i) (bj * m + j)
+  = ent (nth [::] (nth [::] G bi) bj) i j.
+Proof.
+move=> biK bjK iN jM; rewrite /ent nth_block_grid //.
+rewrite (nth_flatten_unif _ _ (grid_pieces biK iN)) //.
+by rewrite (nth_map [::]) ?(sGrow biK).
+Qed.
+
+Theorem wf_block_grid : wf (Kr * n) (Kc * m) (block_grid G).
+Proof.
+apply: wf_intro.
+  by rewrite block_gridE (size_flatten_unif grid_all_rows) size_map sG.
+move=> x xN; have n0 : (0 < n)%N by case: (n) xN => //; rewrite muln0.
+have biK : (x %/ n < Kr)%N by rewrite ltn_divLR.
+have iN : (x %% n < n)%N by rewrite ltn_mod.
+rewrite (divn_eq x n) nth_block_grid //.
+by rewrite (size_flatten_unif (grid_pieces biK iN)) size_map sGrow.
+Qed.
+End Grid.
+
+(* ------------------------------------------------------------------ *)
 (* Assumption audit                                                    *)
 
 Print Assumptions mx_of_mzero.
@@ -646,3 +750,5 @@ Print Assumptions mx_of_sub_block_ur.
 Print Assumptions mx_of_block_grid2.
 Print Assumptions wf_mmul.
 Print Assumptions wf_block_grid2.
+Print Assumptions ent_block_grid.
+Print Assumptions wf_block_grid.
